@@ -290,10 +290,12 @@ def _assemble_diff(a, b, opcodes):
                     last_op = opcodes[index - 1]
                     opcodes[index - 1] = (last_op[0], last_op[1], last_op[2], last_op[3], last_op[4] + 1)
                     opcodes[index] = (operation[0], operation[1], operation[2], operation[3] + 1, operation[4])
+                    operation = opcodes[index]
                 elif next_equal and next_equal == link:
                     # opcodes are tuples, so we can't just edit them.
                     next_op = opcodes[index + 1]
                     opcodes[index] = (operation[0], operation[1], operation[2], operation[3], operation[4] - 1)
+                    operation = opcodes[index]
                     opcodes[index + 1] = (next_op[0], next_op[1], next_op[2], next_op[3] - 1, next_op[4])
 
         if (command == 'delete' or command == 'replace'):
@@ -308,10 +310,12 @@ def _assemble_diff(a, b, opcodes):
                     last_op = opcodes[index - 1]
                     opcodes[index - 1] = (last_op[0], last_op[1], last_op[2] + 1, last_op[3], last_op[4])
                     opcodes[index] = (operation[0], operation[1] + 1, operation[2], operation[3], operation[4])
+                    operation = opcodes[index]
                 elif next_equal and next_equal == link:
                     # opcodes are tuples, so we can't just edit them.
                     next_op = opcodes[index + 1]
                     opcodes[index] = (operation[0], operation[1], operation[2] - 1, operation[3], operation[4])
+                    operation = opcodes[index]
                     opcodes[index + 1] = (next_op[0], next_op[1] - 1, next_op[2], next_op[3], next_op[4])
 
     for command, a_start, a_end, b_start, b_end in opcodes:
